@@ -121,3 +121,33 @@ Proof.
   intros H. destruct (formatting_reproduces_intended_proof _ _ _ _ _ _ _ _ _ _ H) as [_ [Hs [Ht _]]].
   destruct Hs as [Hs|Hs]; [discriminate|]. destruct (Ht Hs) as [Hc _]. exact Hc.
 Qed.
+
+(* ---- sequences of calls (history independence of the model; seed round 3) ---- *)
+
+Lemma compute_edits_functional_proof : forall before after r1 r2,
+  compute_edits before after = r1 -> compute_edits before after = r2 -> r1 = r2.
+Proof. intros; congruence. Qed.
+
+Lemma compute_edits_seq_nth : forall pre post before after,
+  nth_error (compute_edits_seq (pre ++ (before, after) :: post)) (List.length pre) =
+  Some (compute_edits before after).
+Proof.
+  intros pre post before after. unfold compute_edits_seq. rewrite map_app.
+  rewrite nth_error_app2; rewrite map_length; [|apply Nat.le_refl].
+  rewrite Nat.sub_diag. reflexivity.
+Qed.
+
+Lemma compute_edits_history_independent_proof : forall pre1 post1 pre2 post2 before after,
+  nth_error (compute_edits_seq (pre1 ++ (before, after) :: post1)) (List.length pre1) =
+  nth_error (compute_edits_seq (pre2 ++ (before, after) :: post2)) (List.length pre2).
+Proof. intros. rewrite !compute_edits_seq_nth. reflexivity. Qed.
+
+Lemma compute_edits_seq_correct_proof : forall calls,
+  Forall2 (fun p r => exists es, r = Ok es /\ lsp_apply es (fst p) = Some (snd p) /\
+                                 edits_ordered es = true /\ forallb (edit_in_doc (fst p)) es = true)
+          calls (compute_edits_seq calls).
+Proof.
+  induction calls as [|[b a] calls IH]; cbn; constructor; [|exact IH].
+  destruct (compute_edits_total_proof b a) as [es H]. exists es. split; [exact H|].
+  exact (compute_edits_sound_proof b a es H).
+Qed.
